@@ -3,7 +3,9 @@ import random
 
 from haiway import MISSING
 
-from harness.legs import cfg_text, leg_m, leg_mutant, leg_r
+import json
+
+from harness.legs import cfg_text, gen_traces, leg_m, leg_mutant, leg_r, leg_t_gen
 from props.values_common import is_frozen, make_class, make_generic, make_generic_subclass, py_to_val, val_to_py
 
 SPEC = "Values"
@@ -20,13 +22,20 @@ MANIFEST = dict(
          "argument of a plain class, class default, GHolder[annotation], a subclass of GHolder[annotation]) which have to "
          "agree, and verdict + stored term are compared with the successor state. The vocabulary includes the plain "
          "instance-checked types (complex, range, UUID, date / datetime, time, timedelta, timezone, Path, Pattern), "
-         "Callable, type, plain and parametrised type aliases (haiway.frozenlist[x], a local Pair[x]). In the thorough tier "
-         "hypothesis-style random terms up to depth 4 are judged by TLC evaluating the same operators (ValuesTrace).",
+         "Callable, type, plain and parametrised type aliases (haiway.frozenlist[x], a local Pair[x]). Leg T: random "
+         "(annotation, value) terms up to annotation depth 4 - mostly conforming values with deviations injected at "
+         "every level - are constructed in the real library and judged by TLC evaluating the same operators on the "
+         "recorded pair (generated trace module, Init bound to the recorded terms).",
     technique="TLA+ spec used as exhaustively self-checked executable oracle (TLC enumerates all term pairs); every pair "
               "replayed into the implementation; TLC evaluates Conforms/Norm on recorded random cases",
     design="5/C05")
 INVS = ["ExactlyConforming", "NormConforms", "NormIdempotent", "Faithful", "StoredImmutable", "UnionIsDisjunction"]
 NOVAL = dict(k="nothing", v=0, xs=())
+
+
+def has_any(a):
+    """what is accepted under Any (or as a callable / a class) is stored as given"""
+    return a["k"] in ("any", "callable", "type") or any(has_any(x) for x in a["xs"])
 
 
 def construct(ann, val, use_default, generic=False):
@@ -49,7 +58,7 @@ def construct(ann, val, use_default, generic=False):
         return dict(acc="no", stored=NOVAL)  # refused - the property does not say with which exception type
     stored = inst.x
     term = py_to_val(stored)
-    if val["xs"] and not is_frozen(stored) and ann["k"] != "any":
+    if val["xs"] and not is_frozen(stored) and not has_any(ann):
         term = dict(term, k=term["k"] + "!mutable")
     return dict(acc="yes", stored=term)
 
@@ -83,6 +92,118 @@ class ValuesDriver:
         pass
 
 
+# ---- leg T: random terms beyond the enumerated sets (annotation depth up to 4), judged by TLC evaluating the same operators
+PLAIN_KINDS = ["complex", "range", "uuid", "date", "datetime", "time", "timedelta", "timezone", "path", "pattern"]
+LEAF_ANN = ["none", "bool", "int", "float", "str", "bytes", "any", "missing", "enum", "state", "callable", "type"] + PLAIN_KINDS
+
+
+def A(k, xs=(), vs=()):
+    return dict(k=k, xs=list(xs), vs=list(vs))
+
+
+def V(k, p=0, xs=()):
+    return dict(k=k, v=p, xs=list(xs))
+
+
+LEAF_VAL = [V("none"), V("bool", 0), V("bool", 1), V("int", 0), V("int", 1), V("float", 15), V("str", 1), V("str", 2),
+            V("bytes", 1), V("missing"), V("enumv", 1), V("state", 1), V("state2", 1), V("func", 1), V("cls", 1)] + \
+           [V(k, 1) for k in PLAIN_KINDS]
+
+
+def rand_ann(rnd, depth):
+    if depth <= 0 or rnd.random() < 0.25:
+        if rnd.random() < 0.1:
+            return A("lit", vs=[V("int", 1), V("str", 1)])
+        return A(rnd.choice(LEAF_ANN))
+    k = rnd.choice(["seq", "set", "fset", "vtuple", "alias", "flist", "pair", "tuple", "tuple", "map", "union", "union"])
+    if k in ("seq", "vtuple", "alias", "flist", "pair"):
+        return A(k, [rand_ann(rnd, depth - 1)])
+    if k in ("set", "fset"):
+        return A(k, [A(rnd.choice(["int", "str", "bool", "none", "enum", "date"]))])      # hashable elements
+    if k == "tuple":
+        return A(k, [rand_ann(rnd, depth - 1) for _ in range(rnd.randint(1, 3))])
+    if k == "map":
+        return A(k, [A(rnd.choice(["str", "int"])), rand_ann(rnd, depth - 1)])
+    alts = [rand_ann(rnd, depth - 1) for _ in range(rnd.randint(2, 3))]
+    return A("union", alts)
+
+
+def rand_val(rnd, a, depth=4):
+    """a value that mostly conforms to the annotation term, with random deviations at every level"""
+    if rnd.random() < 0.12 or depth <= 0:
+        return rnd.choice(LEAF_VAL) if rnd.random() < 0.7 else V(rnd.choice(["list", "tuple"]), 0, [rnd.choice(LEAF_VAL)])
+    k, xs = a["k"], a["xs"]
+    leaf = {"none": V("none"), "bool": V("bool", rnd.randint(0, 1)), "int": V("int", rnd.randint(0, 1)),
+            "float": V("float", 15), "str": V("str", rnd.randint(1, 2)), "bytes": V("bytes", 1), "missing": V("missing"),
+            "enum": V("enumv", 1), "state": V(rnd.choice(["state", "state2"]), 1), "callable": V(rnd.choice(["func", "cls"]), 1),
+            "type": V("cls", 1)}
+    if k in leaf:
+        return leaf[k]
+    if k in PLAIN_KINDS:
+        return V("datetime", 1) if k == "date" and rnd.random() < 0.3 else V(k, 1)
+    if k == "any":
+        return rnd.choice(LEAF_VAL)
+    if k == "lit":
+        return dict(rnd.choice(a["vs"]))
+    if k in ("seq", "vtuple", "flist"):
+        items = [rand_val(rnd, xs[0], depth - 1) for _ in range(rnd.randint(0, 2))]
+        return V(rnd.choice(["list", "tuple"]) if k == "seq" else rnd.choice(["tuple", "tuple", "list"]), 0, items)
+    if k in ("set", "fset"):
+        items = {json.dumps(rand_val(rnd, xs[0], 1), sort_keys=True) for _ in range(rnd.randint(0, 2))}
+        return V(rnd.choice(["set", "fset"]), 0, [json.loads(x) for x in sorted(items)])
+    if k == "pair":
+        return V("tuple", 0, [rand_val(rnd, xs[0], depth - 1) for _ in range(rnd.choice([2, 2, 2, 1, 3]))])
+    if k == "tuple":
+        n = len(xs) if rnd.random() < 0.85 else rnd.randint(0, 3)
+        return V(rnd.choice(["tuple", "tuple", "list"]), 0, [rand_val(rnd, xs[min(i, len(xs) - 1)], depth - 1) for i in range(n)])
+    if k == "map":
+        keys = rnd.sample([V("str", 1), V("str", 2), V("int", 1)], rnd.randint(0, 2))
+        return V("dict", 0, [V("pair", 0, [kk, rand_val(rnd, xs[1], depth - 1)]) for kk in keys])
+    if k == "union":
+        return rand_val(rnd, rnd.choice(xs), depth - 1)
+    if k == "alias":
+        return rand_val(rnd, xs[0], depth - 1)
+    raise ValueError(k)
+
+
+def _hashable_ok(v):
+    """the Python value of the term can be built (set elements / dict keys hashable and distinct)"""
+    try:
+        val_to_py(v)
+        return True
+    except Exception:  # noqa: BLE001
+        return False
+
+
+def gen_trace(rnd):
+    while True:
+        ann = rand_ann(rnd, rnd.randint(1, 4))
+        val = rand_val(rnd, ann)
+        if _hashable_ok(val):
+            break
+    d = ValuesDriver()
+    d.reset(dict(ann=_tup(ann), val=_tup(val)))
+    o = d.apply("Construct", ())
+    return [dict(ev="Init", init=dict(ann=ann, val=val)), dict(ev="Construct", args=[], obs=_lst(o))]
+
+
+def _tup(t):
+    return {k: (tuple(_tup(x) for x in v) if isinstance(v, list) else v) for k, v in t.items()}
+
+
+def _lst(o):
+    if isinstance(o, dict):
+        return {k: _lst(v) for k, v in o.items()}
+    if isinstance(o, (list, tuple)):
+        return [_lst(x) for x in o]
+    return o
+
+
+TRACE_KW = dict(variables=["ann", "val", "done", "obs"], constants=dict(Depth=1, Bug='"none"'),
+                config_vars=["ann", "val"], actions=dict(Construct=0), init="InitAny",
+                invariants=["ExactlyConforming", "NormConforms", "NormIdempotent", "Faithful", "StoredImmutable"])
+
+
 def run(rep, work, tier, seed):
     depth = 1 if tier == "quick" else 2
     c = dict(Depth=depth, Bug="none")
@@ -100,6 +221,11 @@ def run(rep, work, tier, seed):
                 else:
                     raise
     leg_r(rep, work, SPEC, f"conf_{tier}", cfg_text(c, invariants=INVS), ValuesDriver, nproc=8)
+    # leg T: random (annotation, value) terms up to annotation depth 4, constructed in the real library (all four holder
+    # forms) and judged by TLC evaluating Conforms / Contested / Norm of Values.tla on the recorded pair
+    rnd = random.Random(seed * 53 + 17)
+    traces = gen_traces(rep, lambda: gen_trace(rnd), 600 if tier == "quick" else 8000)
+    leg_t_gen(rep, work, SPEC, f"trace_{tier}", traces, **TRACE_KW)
     rep.assumptions += [
         "annotation vocabulary of the enumerated terms: None, bool, int, float, str, bytes, Any, Missing, Enum, nested "
         "State (and a subclass instance), Literal, Sequence, Set, frozenset, Mapping, fixed and variadic tuple, Union / "
